@@ -10,6 +10,7 @@ import (
 	"fmt"
 	"sort"
 	"strings"
+	"sync"
 	"testing"
 
 	"github.com/nspcc-dev/neo-go/pkg/config"
@@ -284,6 +285,130 @@ func (c *ctx) catalogue(n int, prevTs uint64) []mutant {
 
 var _ = hash.Sha256
 
+// staleAndConcurrent: see the call site.
+func (c *ctx) staleAndConcurrent(run *ev.Run, hi, st int) {
+	p, h := c.p, c.h
+	id := fmt.Sprintf("h%d/state%d/pooled-then-stale", hi, st)
+	if !run.Want(id) {
+		return
+	}
+	rep, err := vchain.OpenReplica(c.t, vchain.ReplicaCfg{Name: "c06stale", Cfg: h.Proto})
+	if err != nil {
+		c.t.Fatal(err)
+	}
+	defer func() { rep.Close() }()
+	for i := 0; i < st; i++ {
+		if err := rep.AddRaw(p.Raw[i]); err != nil {
+			c.t.Fatalf("replay: %v", err)
+		}
+	}
+	// a user that signs nothing in the next two blocks, so only the validity window moves
+	busy := map[util.Uint160]bool{}
+	for _, b := range p.Blocks[st : st+3] {
+		for _, tx := range b.Transactions {
+			for _, sg := range tx.Signers {
+				busy[sg.Account] = true
+			}
+		}
+	}
+	var u *vchain.User
+	for _, cand := range p.Users {
+		if !busy[cand.Hash()] && rep.BC.GetUtilityTokenBalance(cand.Hash(), util.Uint160{}).Int64() > 100_0000_0000 {
+			u = cand
+			break
+		}
+	}
+	if u == nil {
+		run.Obs("pooled_then_stale_skipped", 1)
+		return
+	}
+	fee := 20_0000_0000 / 100
+	tx := c.userTx(u, uint32(st+2), int64(fee), 1000_0000, []byte{byte(opcode.RET)})
+	if err := rep.BC.PoolTx(tx); err != nil {
+		run.Obs("pooled_then_stale_skipped", 1)
+		return
+	}
+	empties := 0
+	for i := st; i < st+2; i++ {
+		if len(p.Blocks[i].Transactions) == 0 {
+			empties++
+		}
+		if err := rep.AddRaw(p.Raw[i]); err != nil {
+			c.t.Fatalf("replay: %v", err)
+		}
+	}
+	run.Case(id, true)
+	run.Obs("pooled_then_stale_cases", 1)
+	run.Obs("pooled_then_stale_empty_blocks_passed", int64(empties))
+	opts := p.ObsOpts()
+	before := snap(rep, opts)
+	m := clone(p.Blocks[st+2], c.srih)
+	m.Transactions = append(m.Transactions, tx)
+	m.RebuildMerkleRoot()
+	c.resign(m)
+	blk, derr := vchain.DecodeBlock(vchain.EncodeBlock(m), c.srih)
+	if derr != nil {
+		c.t.Fatal(derr)
+	}
+	wit := map[string]any{"history": 1000 + hi, "state": st, "empty_blocks_passed": empties}
+	if err := rep.BC.AddBlock(blk); err == nil {
+		run.Violation("corrupted-block-accepted:pooled-transaction-expired-meanwhile", id, fmt.Sprintf("transaction pooled at height %d with ValidUntilBlock %d accepted in block %d", st, st+2, st+3), wit)
+		return
+	}
+	after := snap(rep, opts)
+	if after.height != before.height || after.pool != before.pool {
+		run.Violation("rejected-block-changed-mempool:pooled-then-stale", id, before.pool+" -> "+after.pool, wit)
+	}
+	// the same (correct) block offered by several goroutines at once is added exactly once
+	id2 := fmt.Sprintf("h%d/state%d/concurrent-duplicate-add", hi, st)
+	if !run.Want(id2) {
+		return
+	}
+	run.Case(id2, true)
+	if rep.BC.HeaderHeight() != rep.BC.BlockHeight() {
+		// the rejected block's (valid) header was recorded: take a fresh node
+		rep.Close()
+		rep, err = vchain.OpenReplica(c.t, vchain.ReplicaCfg{Name: "c06conc", Cfg: h.Proto})
+		if err != nil {
+			c.t.Fatal(err)
+		}
+		for i := 0; i < st+2; i++ {
+			if err := rep.AddRaw(p.Raw[i]); err != nil {
+				c.t.Fatalf("replay: %v", err)
+			}
+		}
+	}
+	const par = 4
+	errs := make([]error, par)
+	var wg sync.WaitGroup
+	start := make(chan struct{})
+	for g := 0; g < par; g++ {
+		b, _ := vchain.DecodeBlock(p.Raw[st+2], c.srih)
+		wg.Add(1)
+		go func() {
+			defer wg.Done()
+			<-start
+			errs[g] = rep.BC.AddBlock(b)
+		}()
+	}
+	close(start)
+	wg.Wait()
+	ok := 0
+	for _, e := range errs {
+		if e == nil {
+			ok++
+		}
+	}
+	run.Obs("concurrent_duplicate_adds", 1)
+	if ok != 1 {
+		run.Violation("same-block-added-more-than-once-concurrently", id2, fmt.Sprintf("%d of %d concurrent AddBlock calls for block %d succeeded", ok, par, st+3), wit)
+		return
+	}
+	if d := p.Obs[st+3].Diff(vchain.Observe(rep.BC, opts)); d != "" {
+		run.Violation("state-differs-after-concurrent-duplicate-add", id2, d, wit)
+	}
+}
+
 func TestCheck(t *testing.T) {
 	run := ev.Start("C06", "a case is one (chain state, corrupted block) pair: the valid next block is corrupted in exactly one respect (a header field, the witness, the transaction list with and without a rebuilt and re-signed header, the encoding), serialized, parsed and offered through AddBlock to a node in that state (optionally with the correct next headers already recorded, with pooled transactions); the node's raw database after a flush, full observation, mempool and header chain are compared before/after and the correct block must then be accepted with the reference state root; distinct by (history, state, mutant); every case is non-trivial")
 	defer run.Finish()
@@ -450,6 +575,78 @@ func TestCheck(t *testing.T) {
 					if dirty {
 						fresh()
 						before = snap(rep, opts)
+					}
+				}
+				// pooled, then stale: a transaction valid and pooled at this state that
+				// is no longer valid two blocks later (expired, paid away, conflicted on
+				// chain, signer blocked) and then comes in a block; and the same block
+				// offered by several goroutines at once
+				if !ahead && st+3 < len(p.Blocks) {
+					c.staleAndConcurrent(run, hi, st)
+				}
+				// late rejection: with state roots in headers, a block whose successor
+				// header (already recorded, validly signed) names another previous
+				// state root is rejected only after it was fully executed; nothing of
+				// that execution may stay behind
+				if srih && !ahead && st+1 < len(p.Blocks) {
+					id := fmt.Sprintf("h%d/state%d/late-rejection", hi, st)
+					if run.Want(id) {
+						run.Case(id, true)
+						lcfg := h.Proto
+						if st%2 == 1 {
+							lcfg = func(c *config.Blockchain) { h.Proto(c); c.KeepOnlyLatestState = true }
+						}
+						lr, err := vchain.OpenReplica(t, vchain.ReplicaCfg{Name: "c06late", Cfg: lcfg})
+						if err != nil {
+							t.Fatal(err)
+						}
+						for i := 0; i < st; i++ {
+							if err := lr.AddRaw(p.Raw[i]); err != nil {
+								t.Fatalf("replay: %v", err)
+							}
+						}
+						for _, tx := range h.Txs[st] {
+							if r.Intn(2) == 0 {
+								tc := *tx
+								_ = lr.BC.PoolTx(&tc)
+							}
+						}
+						next := clone(p.Blocks[st+1], srih)
+						next.PrevStateRoot[5] ^= 0x21
+						c.resign(next)
+						nh, _ := vchain.DecodeBlock(vchain.EncodeBlock(next), srih)
+						if err := lr.BC.AddHeaders(&p.Blocks[st].Header, &nh.Header); err != nil {
+							run.Obs("late_rejection_headers_refused", 1)
+						} else {
+							bsnap := snap(lr, opts)
+							var aerr error
+							func() {
+								defer func() {
+									if x := recover(); x != nil {
+										aerr = nil
+										run.Violation("panic-in-AddBlock:late-rejection", id, fmt.Sprint(x), nil)
+									}
+								}()
+								aerr = lr.AddRaw(p.Raw[st])
+							}()
+							wit := map[string]any{"history": 1000 + hi, "state": st, "tx_kinds": p.KindLog[st]}
+							if aerr == nil {
+								run.Violation("corrupted-block-accepted:successor-header-names-other-state-root", id, "block accepted although the recorded next header carries another PrevStateRoot", wit)
+							} else {
+								run.Obs("late_rejections", 1)
+								asnap := snap(lr, opts)
+								if asnap.height != bsnap.height {
+									run.Violation("rejected-block-changed-height:late-rejection", id, fmt.Sprintf("%d -> %d", bsnap.height, asnap.height), wit)
+								} else if d := vchain.DiffDumps(bsnap.dump, asnap.dump, nil); d != "" {
+									run.Violation("rejected-block-changed-database:late-rejection", id, d, wit)
+								} else if d := bsnap.obs.Diff(asnap.obs); d != "" {
+									run.Violation("rejected-block-changed-observable-state:late-rejection", id, d, wit)
+								} else if asnap.pool != bsnap.pool {
+									run.Violation("rejected-block-changed-mempool:late-rejection", id, bsnap.pool+" -> "+asnap.pool, wit)
+								}
+							}
+						}
+						lr.Close()
 					}
 				}
 				// the correct block is still accepted and leads to the reference state
